@@ -593,6 +593,12 @@ func (e *Env) evalCall(n *ast.CallExpr) Val {
 			evalFail("lastresult needs a string literal")
 		}
 		name, _ := strconv.Unquote(lit.Value)
+		if len(n.Args) == 2 {
+			// lastresult("name", k): the k-th result (0-based) of that call
+			if kl, ok := n.Args[1].(*ast.BasicLit); ok && kl.Value != "0" {
+				name += "#" + kl.Value
+			}
+		}
 		if v, ok := e.st.lastRes[name]; ok {
 			return v
 		}
